@@ -276,6 +276,13 @@ def run():
                                  "the real transport fails exactly where the model predicts" if "ModelInvariant" in dv.get("bad", [])
                                  and len(dv.get("bad", [])) > 1 else "no divergence observed"))
     ctx.judge(scs, trace, verdicts, clause_filter=lambda sc, b: not sc.startswith("C13/diag/"))
+    if ctx.violations:
+        by = {}
+        for sc, clause, _ in ctx.violations:
+            key = "%s@%s" % (clause, sc.split("/")[1])
+            by[key] = by.get(key, 0) + 1
+        log("[C13] violations by clause@family: %s" % json.dumps(by, sort_keys=True))
+        ctx.notes.append("violations by clause@family: %s" % json.dumps(by, sort_keys=True))
     ctx.finish(rule="scenarios = complete paths of the generator configurations of WsWindow.tla (configuration grid mode x level 0..9 x "
                     "window bits x message-class sequences; deep class sequences; eager/lazy/any read interleavings; gated interleavings "
                     "of two concurrent writers) replayed lock-step on a real websocket.New pair (in-memory Conn) and a real quic.New pair "
